@@ -11,6 +11,7 @@ import mc.env as env  # noqa: F401
 
 import json
 import os
+from pathlib import Path
 import pickle
 import subprocess
 import sys
@@ -167,6 +168,9 @@ def recover(tr, files, j, point):
     """
     cls = ih5.record_class(tr["kind"])
     committed = tr["commit_imgs"][j]
+    v = _recover_more(tr, files, j, point, cls, committed)
+    if v is not None:
+        return v
     for which in ("discard", "commit"):
         d = env.fresh_dir("rc")
         try:
@@ -222,6 +226,87 @@ def recover(tr, files, j, point):
                 r2.close()
         finally:
             env.rmtree(d)
+    return None
+
+
+def _recover_more(tr, files, j, point, cls, committed):
+    """R3: 'r+', discard_patch, then a commit_patch that is refused (nothing to commit) - and a commit_patch on the image
+        opened 'r': committed files (manifest sidecars included) stay byte-identical and the record still opens.
+    R4: the image opened 'r' and merged into a fresh container: if that is not refused, the result must not open
+        cleanly with a state that was never committed."""
+    commits = tr["commits"]
+    for which in ("discard+refused-commit", "ro-refused-commit", "ro-merge"):
+        d = env.fresh_dir("rm")
+        md = env.fresh_dir("rmm")
+        try:
+            T.write_image(files, d)
+            try:
+                with env.watchdog(30):
+                    r = cls(os.path.join(d, "rec"), "r+" if which.startswith("discard") else "r")
+            except env.StepTimeout:
+                return _viol("recovery-nonterm", "opening the crash image does not terminate", tr, point)
+            except BaseException as e:
+                if isinstance(e, (KeyboardInterrupt, SystemExit)):
+                    raise
+                continue
+            merged = None
+            mtarget = Path(md) / "merged"
+            try:
+                pending = (r.ih5_meta[-1].patch_uuid, r.ih5_meta[-1].hdf5_hashsum)
+            except Exception:
+                pending = (None, "?")
+            try:
+                try:
+                    with env.watchdog(30):
+                        if which == "discard+refused-commit":
+                            r.discard_patch()
+                            r.commit_patch()
+                        elif which == "ro-refused-commit":
+                            r.commit_patch()
+                        else:
+                            merged = r.merge_files(mtarget)
+                except env.StepTimeout:
+                    return _viol("recovery-nonterm", f"{which} on the crash image does not terminate", tr, point)
+                except Exception:
+                    pass
+            finally:
+                try:
+                    r.close(commit=False)
+                except Exception:
+                    pass
+            for name, b in committed.items():
+                p = os.path.join(d, name)
+                if not os.path.exists(p) or open(p, "rb").read() != b:
+                    return _viol("recovery-damaged-committed", f"after {which} on the crash image committed file {name} is changed/removed", tr, point)
+            if which != "ro-merge":
+                cfiles = [Path(d) / n for n in committed if n.endswith(".ih5")]
+                try:
+                    r2 = cls(cfiles, "r")
+                    r2.close()
+                except BaseException as e:
+                    if isinstance(e, (KeyboardInterrupt, SystemExit)):
+                        raise
+                    return _viol("recovery-leaves-unopenable-record", f"after {which} on the crash image the committed containers no longer open: {type(e).__name__}: {e}", tr, point)
+            elif merged is not None:
+                try:
+                    m = cls(mtarget, "r")
+                except BaseException as e:
+                    if isinstance(e, (KeyboardInterrupt, SystemExit)):
+                        raise
+                    continue  # does not open: acceptable
+                try:
+                    if m.ih5_meta[-1].hdf5_hashsum is not None:
+                        mv = norm(ih5lib.dump(m))
+                        ok = [commits[i]["view"] for i in (j - 1, j) if 0 <= i < len(commits)]
+                        if pending[1] is None and m.ih5_meta[-1].patch_uuid == pending[0]:
+                            return _viol("uncommitted-patch-passed-off-as-committed", "the crash image (interrupted patch, recognisably uncommitted, opened 'r') can be merged into a container that opens cleanly and identifies itself as that never-committed patch", tr, point)
+                        if mv not in ok:
+                            return _viol("clean-open-with-unwritten-state", "the crash image (interrupted patch, opened 'r') can be merged into a container that opens cleanly and shows a state that was never committed", tr, point)
+                finally:
+                    m.close()
+        finally:
+            env.rmtree(d)
+            env.rmtree(md)
     return None
 
 
